@@ -302,6 +302,8 @@ Render == RenderFrom(1)
 PhaseIdx(sfx, phases) == IF \E i \in 1..Len(phases) : phases[i] = sfx
                          THEN CHOOSE i \in 1..Len(phases) : phases[i] = sfx ELSE 0
 
+PhaseIdxMap(sfx, map, default) == IF sfx \in DOMAIN map THEN map[sfx] ELSE default
+
 ------------------------------------------------------------------------------
 (* molar mass (C14): see Mass.tla - MassNumOf(comp, q), MassDenOf(comp) *)
 ------------------------------------------------------------------------------
@@ -320,6 +322,10 @@ CaseRec ==
                      prefix |-> PrefixOf, suffix |-> SuffixOf, render |-> Render,
                      phase_default |-> PhaseIdx(SuffixOf, <<"(s)", "(l)", "(g)">>),
                      phase_alt |-> PhaseIdx(SuffixOf, <<"(aq)", "(g)">>),
+                     \* phases given as a mapping suffix -> index, with default index 7 for the others
+                     phase_dict |-> PhaseIdxMap(SuffixOf, ("(aq)" :> 0) @@ ("(s)" :> 5) @@ ("(g)" :> 2), 7),
+                     \* default_phase_idx = None: an unknown (or missing) suffix must be refused
+                     phase_none_raises |-> PhaseIdx(SuffixOf, <<"(s)", "(l)", "(g)">>) = 0,
                      massnum |-> MassNumOf(total, ChargeOf), massden |-> MassDenOf(total),
                      ntoks |-> Len(toks) ] ]
 Emit == Done => PrintT(<<"CASE", ToJson(CaseRec)>>)
